@@ -200,7 +200,9 @@ def run_check(ctx):
         n3, f3 = lazy_checks(ctx, scale); ctx.cov['evaluations'] += n3; ctx.cov['distinct_nontrivial'] += n3
         n4, m4, f4 = history_checks(ctx, pool, scale); ctx.cov['evaluations'] += n4; ctx.cov['distinct_nontrivial'] += n4
         for m in m4[:20]: broken.append(('wrapper-history model and implementation disagree on: %s' % m['line'][:140], {'stage': 'correspondence', **m}))
-        f3 = f3 + f4
+        from .. import surface
+        n5, f5 = surface.c13_constants(ctx, pool); ctx.cov['evaluations'] += n5
+        f3 = f3 + f4 + f5
     except RuntimeError as e:
         ctx.violation('harness or model failed: %s' % str(e)[:300], {'stage': 'build', 'log': str(e)[-3000:]}, {'stage': 'build'}, found_input=False); return
     # the property predicate on the implementation is evaluated on every run (value agreement with native code, lazy rule)
